@@ -1346,6 +1346,10 @@ void C2sStreamManager::onStreamStart()
 void C2sStreamManager::onStreamFeatures(const QXmppStreamFeatures &features)
 {
     m_smAvailable = features.streamManagementMode() != QXmppStreamFeatures::Disabled;
+    if (!m_smAvailable && !m_enabled) {
+        // no stream management on this stream: a previous session cannot be resumed anymore
+        m_canResume = false;
+    }
 }
 
 void C2sStreamManager::onStreamClosed()
@@ -1426,6 +1430,7 @@ void C2sStreamManager::onEnabled(const SmEnabled &enabled)
 void C2sStreamManager::onEnableFailed(const SmFailed &)
 {
     q->warning(u"Failed to enable stream management"_s);
+    m_canResume = false;
 }
 
 void C2sStreamManager::onResumed(const SmResumed &resumed)
@@ -1440,6 +1445,8 @@ void C2sStreamManager::onResumed(const SmResumed &resumed)
 void C2sStreamManager::onResumeFailed(const SmFailed &)
 {
     q->debug(u"Stream resumption failed"_s);
+    // the old session is gone, the new one is only resumable if stream management gets enabled again
+    m_canResume = false;
 }
 
 bool C2sStreamManager::setResumeAddress(const QString &address)
